@@ -331,6 +331,12 @@ func (ip *Inode) Write(atxn *alloctxn.AllocTxn, offset uint64,
 		blkno, new := ip.bmap(atxn, boff)
 		if blkno == common.NULLBNUM {
 			ok = false
+			if cnt > 0 && boff+1 > ip.ShrinkSize {
+				// a short write: bmap may have allocated index blocks for
+				// boff, beyond the new size; record that the inode holds
+				// blocks up to there, so that they are freed again
+				ip.ShrinkSize = boff + 1
+			}
 			break
 		}
 		if new {
